@@ -46,7 +46,10 @@ def _random_case(rng, cls, big=False):
         ops.append(["peek", rng.randint(2, 8)])
         g.clk = max(g.clk, g.tmax) + S
         ops.append(["until", g.clk, g.fl(g.clk)])
-    return {"cls": cls, "script": script, "fuel": 400, "ops": ops}
+    case = {"cls": cls, "script": script, "fuel": 400, "ops": ops}
+    if rng.random() < 0.04:
+        case["setup"] = False       # setup(model) never called: run calls must raise and change nothing
+    return case
 
 
 def _peek_case(rng, cls):
@@ -139,7 +142,7 @@ def enumerate_cases(tier, broken=False):
 
 RULE = ("histories = one simulator (ABMSimulator or DEVSimulator, after setup) + a sequence of schedule_event_now/_relative/"
         "_absolute/_next_tick (int and dyadic float times, ties in time and priority, 6% into the past or at a wrong unit), "
-        "cancel_event, dropping the object whose bound method is the callable, run_until / run_for / run_next_event (4% with a horizon outside the statement), "
+        "cancel_event, dropping the object whose bound method / function is the callable, 4% of the general histories on a simulator that was never set up, run_until / run_for / run_next_event (4% with a horizon outside the statement), "
         "peak_ahead(n); events carry user code that itself schedules / cancels / drops; three families: general (60%), "
         "peek after shuffled pushes (20%), scheduling from inside running events with 35% rejected calls (20%); "
         "non-trivial = at least 3 ops and one run call that executed something; distinct = by SHA1 of the history")
